@@ -22,6 +22,13 @@ def run(run):
     ER.noglobal(run, E, 'NOGLOBAL', reach)
     ER.lazyfill(run, E.fx, 'LAZYFILL')
     ER.advinit(run, E.fx, 'LAZYFILL')
+    from . import c03, c09
+    c03.charinfo_ctor(run, E.fx, 'LAZYFILL')        # nothing a fresh segment reports is left as malloc returned it (shared with C03)
+    c09.noglobal_ast(run, E.fx)                     # no mutable static storage, in either VM driver (shared with C09)
+    try:
+        c09.telescope(run)                          # the telemetry build's allocation category is back to null after every load (shared with C09)
+    except Exception as ex:
+        run.broken('NOGLOBAL', 'telemetry scope guard', str(ex), '')
     c08rules.partition(run, E.fx, 'PARTITION')
     c08rules.copyfeats(run, E, 'COPYFEATS')
     c08rules.casts(run, E.fx, 'CASTS', reach, E)
